@@ -413,6 +413,11 @@ func findIndexByFieldName(col client.Collection, fieldName string) immutable.Opt
 func (n *selectNode) initFields(selectReq *mapper.Select) ([]aggregateNode, []*similarityNode, error) {
 	aggregates := []aggregateNode{}
 	similarity := []*similarityNode{}
+	// The plans of the `_version` fields are attached after the plans of all other fields:
+	// a join can only be attached to a parallelNode that shares a multiScanNode, which the
+	// parallelNode created for a commit plan alone does not have.
+	commitPlans := []planNode{}
+	commitPlanIndexes := []int{}
 	// loop over the sub type
 	// at the moment, we're only testing a single sub selection
 	for _, field := range selectReq.Fields {
@@ -464,11 +469,8 @@ func (n *selectNode) initFields(selectReq *mapper.Select) ([]aggregateNode, []*s
 					commitSlct.Depth = immutable.Some(uint64(math.MaxUint64))
 				}
 
-				commitPlan := n.planner.DAGScan(commitSlct)
-
-				if err := n.addSubPlan(f.Index, commitPlan); err != nil {
-					return nil, nil, err
-				}
+				commitPlans = append(commitPlans, n.planner.DAGScan(commitSlct))
+				commitPlanIndexes = append(commitPlanIndexes, f.Index)
 			} else if f.Name == request.GroupFieldName {
 				if selectReq.GroupBy == nil {
 					return nil, nil, ErrGroupOutsideOfGroupBy
@@ -488,6 +490,12 @@ func (n *selectNode) initFields(selectReq *mapper.Select) ([]aggregateNode, []*s
 			var simFilter *mapper.Filter
 			selectReq.Filter, simFilter = filter.SplitByFields(selectReq.Filter, f.Field)
 			similarity = append(similarity, n.planner.Similarity(f, simFilter))
+		}
+	}
+
+	for i, commitPlan := range commitPlans {
+		if err := n.addSubPlan(commitPlanIndexes[i], commitPlan); err != nil {
+			return nil, nil, err
 		}
 	}
 
